@@ -6,6 +6,7 @@ import (
 	"net/http"
 	"net/url"
 	"strings"
+	"time"
 
 	"github.com/inbucket/inbucket/v3/pkg/rest/client"
 
@@ -47,6 +48,9 @@ var c14Ops = []string{
 	"web.attach-bad #1",
 	// the same source fetched ten times over (REST and web UI alternating): nothing may run out
 	"source-x10 #1",
+	// a message whose received date lies before every earlier one's (straight into the store):
+	// listings and 'latest' follow arrival order, dates are metadata
+	"deliver-backdated",
 }
 
 type c14Case struct {
@@ -117,6 +121,19 @@ func c14Exec(c *fw.Ctx, cas c14Case, from int) (key string, extend, nontrivial b
 		if l := mo.Boxes[nm.Mailbox]; len(l) == before+1 {
 			ids = append(ids, l[len(l)-1].ID)
 		}
+	}
+	deliverBackdated := func() {
+		ndeliv++
+		body := fmt.Sprintf("From: s@o.test\r\nTo: %s\r\nSubject: subj %d\r\nMIME-Version: 1.0\r\nContent-Type: multipart/mixed; boundary=\"BB\"\r\n\r\n--BB\r\nContent-Type: text/plain\r\n\r\nhello text %d\r\n--BB\r\nContent-Type: text/plain; name=\"a.txt\"\r\nContent-Disposition: attachment; filename=\"a.txt\"\r\n\r\nATTACH %d\r\n--BB--\r\n", nm.Addr, ndeliv, ndeliv, ndeliv)
+		source := "Return-Path: <s@o.test>\r\nReceived: from c.test ([pipe]) by verif.test (Inbucket)\r\n  for <" + nm.Mailbox + ">; Mon, 1 Jan 2001 00:00:00 +0000\r\n" + body
+		date := time.Unix(1500000000-int64(ndeliv)*3600, 0)
+		id, err := s.StoreH.Store.AddMessage(sys.Delivery(nm.Mailbox, "s@o.test", []string{nm.Addr}, fmt.Sprintf("subj %d", ndeliv), source, date))
+		if err != nil {
+			fail("deliver-backdated|error", "AddMessage: "+err.Error())
+			return
+		}
+		mo.Add(&model.Msg{ID: id, Mailbox: nm.Mailbox, From: "s@o.test", To: []string{nm.Addr}, Subject: fmt.Sprintf("subj %d", ndeliv), Body: source, Size: int64(len(source)), DateNS: date.UnixNano()})
+		ids = append(ids, id)
 	}
 	resolve := func(ref string) (id string, m *model.Msg, kind string) {
 		switch ref {
@@ -212,6 +229,9 @@ func c14Exec(c *fw.Ctx, cas c14Case, from int) (key string, extend, nontrivial b
 		switch f[0] {
 		case "deliver":
 			deliver()
+			nontrivial = true
+		case "deliver-backdated":
+			deliverBackdated()
 			nontrivial = true
 		case "abort.list", "abort.get":
 			path := api("rest")
@@ -601,9 +621,34 @@ func c14Run(c *fw.Ctx) {
 			}
 		}
 	}
+	// a backdated message before / after an ordinary one, then every operation
+	if c.Shard == 0 {
+		bd := len(c14Ops) - 1
+		for _, be := range []string{"mem", "file"} {
+			c14Directed(c, be, 0, []int{0, bd})
+			c14Directed(c, be, 0, []int{bd, 0})
+			c14Directed(c, be, 0, []int{0, bd, 0})
+		}
+	}
 	// the Go client configured with a base URL that ends in a slash (with and without base path)
 	for _, bp := range []string{"", "/pre"} {
 		c14Explore(c, "mem", bp, 1, true, 2, fw.Pick(c, 3, 4))
+	}
+}
+
+// c14Directed runs every history "prefix, X" for X over the whole alphabet (oracle on the last step).
+func c14Directed(c *fw.Ctx, be string, ni int, prefix []int) {
+	for x := range c14Ops {
+		seq := append(append([]int{}, prefix...), x)
+		cas := c14Desc(be, "", ni, seq)
+		if !c.Begin(func() any { return cas }) {
+			continue
+		}
+		var nt bool
+		c.Guard("harness", cas, func() { _, _, nt = c14Exec(c, cas, len(seq)-1) })
+		if nt {
+			c.Nontrivial(1)
+		}
 	}
 }
 
@@ -613,8 +658,12 @@ func c14Explore(c *fw.Ctx, be, bp string, ni int, slash bool, fullD, maxD int) {
 		cas.Slash = slash
 		return cas
 	}
+	nops := len(c14Ops)
+	if !c.Thorough() {
+		nops-- // quick: the backdated delivery (last op) is covered by the directed histories below
+	}
 	e := &fw.SeqExplorer{
-		C: c, NOps: len(c14Ops),
+		C: c, NOps: nops,
 		FullDepth: fullD,
 		MaxDepth:  maxD,
 		Run: func(seq []int) (string, bool, bool) {
